@@ -441,6 +441,21 @@ pub fn gen_group(r: &mut Rng) -> (String, usize) {
             let t = *r.pick(&["38", "48", "58"]);
             (format!("{t};05;0{}", r.below(100)), 3)
         }
+        6 if r.chance(1, 2) => {
+            // an extended-colour selector that is cut short (by the next group or by the final byte): what it leaves behind is
+            // not prescribed - but it ends with its sequence, the next sequence is read on its own
+            let t = *r.pick(&["38", "48", "58"]);
+            let g = match r.below(6) {
+                0 => format!("{t}"),
+                1 => format!("{t};5"),
+                2 => format!("{t};2"),
+                3 => format!("{t};2;{}", r.below(256)),
+                4 => format!("{t};2;{};{}", r.below(256), r.below(256)),
+                _ => format!("{t}:5"),
+            };
+            let n = g.split(';').count();
+            (g, n)
+        }
         _ => ((*r.pick(SINGLES)).to_string(), 1),
     }
 }
